@@ -212,8 +212,8 @@ Section Rxn.
   }.
 
   (* a step that touches no cell of `base` *)
-  Lemma ri_tr : forall FP h W h2 W2 cm cg,
-      RI h W cm cg -> St n h0 h2 W2 -> Tr FP h W h2 W2 -> incl FP W -> (forall x, In x FP -> ~ In x base) ->
+  Lemma ri_tr_g : forall FP h W h2 W2 cm cg,
+      RI h W cm cg -> St n h0 h2 W2 -> Tr FP h W h2 W2 -> FPok h W FP -> (forall x, In x FP -> ~ In x base) ->
       RI h2 W2 cm cg.
   Proof.
     intros FP h W h2 W2 cm cg [HS Hmm Hgg Hdm Hdg [Hc1 Hc2] Hsp] HS2 HT Hi Hfp.
@@ -222,9 +222,9 @@ Section Rxn.
       - apply Hsp in Hx. apply (st_W _ _ _ _ HS) in Hx. lia.
       - intro Hin. apply (Hfp x Hin). apply base_sp. exact Hx. }
     split; auto.
-    - intros q Hq. eapply sprec_tr; [apply Hmm; exact Hq|exact HS|exact HT|exact Hi| |];
+    - intros q Hq. eapply sprec_tr_g; [apply Hmm; exact Hq|exact HS|exact HT|exact Hi| |];
         intro Hin; apply (Hfp _ Hin); eapply base_mm; eauto; cbn; auto.
-    - intros q Hq. eapply sprec_tr; [apply Hgg; exact Hq|exact HS|exact HT|exact Hi| |];
+    - intros q Hq. eapply sprec_tr_g; [apply Hgg; exact Hq|exact HS|exact HT|exact Hi| |];
         intro Hin; apply (Hfp _ Hin); eapply base_gg; eauto; cbn; auto.
     - rewrite Hsame; auto. cbn; auto.
     - rewrite Hsame; auto. cbn; auto.
@@ -233,6 +233,11 @@ Section Rxn.
       + rewrite Hsame; auto. cbn; auto.
     - intros x Hx. apply (tr_W _ _ _ _ _ HT). auto.
   Qed.
+
+  Lemma ri_tr : forall FP h W h2 W2 cm cg,
+      RI h W cm cg -> St n h0 h2 W2 -> Tr FP h W h2 W2 -> incl FP W -> (forall x, In x FP -> ~ In x base) ->
+      RI h2 W2 cm cg.
+  Proof. intros. eapply ri_tr_g; eauto. apply fpok_incl. auto. Qed.
 
   Lemma ri_ctx_empty : forall h W cm cg, RI h W cm cg -> CtxEmpty m' h.
   Proof.
@@ -578,5 +583,272 @@ Section Rxn.
       intros x Hx. apply in_app_or in Hx as [[<-|[<-|[<-|[]]]]|Hx]; [left; reflexivity| | |exact Hx].
       + right. apply in_or_app. left. apply in_map. exact Hrec.
       + right. apply in_or_app. right. apply in_map. exact Hrec.
+  Qed.
+
+  (* ---------------- one reaction *)
+  Record RxOld (r : addr) (oc : cell) : Prop := mkRxOld {
+    ro_get : get h0 r = Some oc;
+    ro_ok : ObjOk h0 ktr oc;
+    ro_k_model : In (At "_model") (keys_of (citems oc));
+    ro_k_mets : In (At "_metabolites") (keys_of (citems oc));
+    ro_k_genes : In (At "_genes") (keys_of (citems oc));
+    ro_mets : exists d dc, attr oc "_metabolites" = Some (Ref d) /\ get h0 d = Some dc;
+    ro_reg : Registered (sitems h0 r);
+    ro_nd : NoDup (keys_of (sitems h0 r));
+    ro_gpr : GprOk h0 r;
+    ro_names : RegNames (gnames h0 r);
+    ro_names_nd : NoDup (gnames h0 r)
+  }.
+
+  Definition RxRec (h : heap) (W : list addr) (q : rec4) : Prop :=
+    (In (q_new q) W /\ In (q_mets q) W /\ In (q_genes q) W) /\
+    (lo <= q_new q /\ lo <= q_mets q /\ lo <= q_genes q) /\
+    ObjCopied h0 ktr h W (q_old q) (q_new q) /\
+    attr_at h (q_new q) "_model" = Some (Ref m') /\
+    attr_at h (q_new q) "_metabolites" = Some (Ref (q_mets q)) /\
+    get h (q_mets q) = Some (mkCell KDict (map fM (sitems h0 (q_old q)))) /\
+    attr_at h (q_new q) "_genes" = Some (Ref (q_genes q)) /\
+    get h (q_genes q) = Some (mkCell KSet (set_items (map newG (gnames h0 (q_old q))))).
+
+  Lemma rxrec_tr : forall FP h W h2 W2 q,
+      RxRec h W q -> St n h0 h W -> Tr FP h W h2 W2 -> FPok h W FP ->
+      ~ In (q_new q) FP -> ~ In (q_mets q) FP -> ~ In (q_genes q) FP -> RxRec h2 W2 q.
+  Proof.
+    intros FP h W h2 W2 q [[W1 [W2' W3]] [Hlo [Hoc [Hmod [Hme [Hnd [Hge Hgs]]]]]]] HS HT Hi N1 N2 N3.
+    pose proof (st_W _ _ _ _ HS _ W1) as L1. pose proof (st_W _ _ _ _ HS _ W2') as L2. pose proof (st_W _ _ _ _ HS _ W3) as L3.
+    assert (get h2 (q_new q) = get h (q_new q)) as E1 by (apply (tr_same _ _ _ _ _ HT); auto; lia).
+    assert (get h2 (q_mets q) = get h (q_mets q)) as E2 by (apply (tr_same _ _ _ _ _ HT); auto; lia).
+    assert (get h2 (q_genes q) = get h (q_genes q)) as E3 by (apply (tr_same _ _ _ _ _ HT); auto; lia).
+    unfold RxRec. split; [repeat split; apply (tr_W _ _ _ _ _ HT); auto|]. split; [exact Hlo|]. split.
+    - eapply objcopied_tr_g; eauto.
+    - rewrite !(attr_at_agree _ _ _ _ E1), E2, E3. auto.
+  Qed.
+
+  Definition RxInv (h : heap) (W : list addr) (RR : list rec4) : Prop :=
+    RI h W (fun a => rs_met h0 a RR) (fun g => rs_gene h0 g RR) /\ In dlr W /\
+    get h dlr = Some (mkCell KDictList (dl_items (map q_new RR))) /\
+    (forall q, In q RR -> RxRec h W q) /\ lo <= List.length h.
+
+  Definition FPr : list addr := dlr :: map r_set MM ++ map r_set GG ++ map r_new GG.
+
+  Lemma update_genes_eq : forall r' h,
+      update_genes m' dlg r' h =
+      fold_left (assoc_gene m' dlg r' (List.length h)) (gpr_names h r')
+                (set_attr (h ++ [mkCell KSet []]) r' "_genes" (Ref (List.length h))).
+  Proof. reflexivity. Qed.
+
+  Lemma base_lt : forall x y, In x base -> lo <= y -> x <> y.
+  Proof. intros x y Hx Hy. apply Hbase_lo in Hx. lia. Qed.
+
+  Lemma copy_reaction_desc : forall h W RR r oc ok,
+      RxInv h W RR -> RxOld r oc ->
+      exists W2 nd gs h2,
+        copy_reaction T m' dlr dlm dlg (h, ok) (Ref r) = (h2, ok) /\
+        RxInv h2 W2 (RR ++ [(r, List.length h, nd, gs)]) /\ Tr FPr h W h2 W2.
+  Proof.
+    intros h W RR r oc ok [HR [HdlrW [Hgdlr [Hrecs Hlo]]]]
+           [Hget Hok K1 K2 K3 [d [dc [Hmd Hdc]]] Hreg Hnd Hgpr Hnames Hnn].
+    pose proof (ri_st _ _ _ _ HR) as HS. destruct Hdlr as [Hdlrb Hdlrlo].
+    pose proof (get_lt _ _ _ Hget) as Hrn.
+    unfold copy_reaction. rewrite (st_old _ _ _ _ HS r Hrn), Hget.
+    destruct (copy_obj T ktr (ct_attrs_rxn T) h oc) as [h1 r1] eqn:E.
+    destruct (copy_obj_desc T h0 ktr (ct_attrs_rxn T) h W oc h1 r1 HS Hok E)
+      as [-> [W1 [HS1 [HT1 [Hr'W [c' [Hg1 [Hk1 [Hkeys1 HA]]]]]]]]].
+    set (r' := List.length h) in *.
+    (* the stoichiometry dict the constructor allocated *)
+    destruct (keys_in_item _ _ K2) as [vm Hvm].
+    pose proof (HA "_metabolites" vm Hvm) as Hd. rewrite Hr_mets, Hr_mets_kind in Hd.
+    destruct Hd as [dv [Hd1 [nd [-> [Hndlo [HndW Hndg]]]]]]. cbn [kind_of_akind] in Hndg.
+    destruct (st_set_attr n h0 h1 W1 r' "_model" (Ref m') HS1 Hr'W) as [HS2 HT2].
+    set (h2 := set_attr h1 r' "_model" (Ref m')) in *.
+    assert (In dlr W1) as HdlrW1 by (apply (tr_W _ _ _ _ _ HT1); exact HdlrW).
+    destruct (st_append n h0 h2 W1 dlr (Ref r') HS2 HdlrW1) as [HS3 HT3].
+    set (h3 := append h2 dlr (Ref r')) in *.
+    pose proof (st_W _ _ _ _ HS _ HdlrW) as Hdlr_lt.
+    assert (~ In r' base) as Hrb by (intro Hin; apply Hbase_lo in Hin; unfold r' in Hin; lia).
+    assert (~ In nd base) as Hndb by (intro Hin; apply Hbase_lo in Hin; unfold r' in *; lia).
+    assert (dlr <> r') as Hdr by (unfold r'; lia).
+    assert (dlr <> nd) as Hdn by (unfold r' in *; lia).
+    assert (r' <> nd) as Hrnd by lia.
+    set (c3 := mkCell (ckind c') (set_item (At "_model") (Ref m') (citems c'))).
+    assert (get h3 r' = Some c3) as Hg3.
+    { unfold h3. rewrite get_append_ne by auto. unfold h2, set_attr. apply get_put_eq. exact Hg1. }
+    assert (NoDup (keys_of (citems c'))) as Hnd' by (rewrite Hkeys1; apply (ok_nodup _ _ _ Hok)).
+    assert (Tr [r'; dlr] h1 W1 h3 W1) as HT23 by (apply (tr_trans _ _ _ _ _ _ _ _ HT2 HT3)).
+    assert (ObjCopied h0 ktr h3 W1 r r') as Hoc3.
+    { exists oc, c3. split; [exact Hget|]. split; [exact Hg3|]. split; [exact Hk1|]. split.
+      - unfold c3. cbn [citems]. rewrite keys_set_item_in; auto. rewrite Hkeys1. exact K1.
+      - intros s v Hin Hex. pose proof (HA s v Hin) as Hv. rewrite Hex in Hv. destruct Hv as [v' [Hv1 Hv2]].
+        exists v'. split.
+        + unfold c3. rewrite attr_set_item_other; auto. intro; subst. congruence.
+        + eapply diso_tr; [exact HS1|exact HT23| |exact Hv2]. intros x [<-|[<-|[]]]; auto. }
+    (* RI after the three first statements *)
+    assert (RI h3 W1 (fun a => rs_met h0 a RR) (fun g => rs_gene h0 g RR)) as HR3.
+    { eapply ri_tr; [|exact HS3|exact HT3| |].
+      - eapply ri_tr; [|exact HS2|exact HT2| |].
+        + eapply ri_tr; [exact HR|exact HS1|exact HT1| |]; intros x [].
+        + intros x [<-|[]]. exact Hr'W.
+        + intros x [<-|[]]. exact Hrb.
+      - intros x [<-|[]]. exact HdlrW1.
+      - intros x [<-|[]]. exact Hdlrb. }
+    (* the stoichiometry loop *)
+    assert (match attr oc "_metabolites" with
+            | Some (Ref d0) => match get h3 d0 with Some dcell => citems dcell | None => [] end
+            | _ => [] end = sitems h0 r) as Hitems.
+    { unfold sitems, attr_at. rewrite Hget, Hmd, Hdc. rewrite (st_old _ _ _ _ HS3 d (get_lt _ _ _ Hdc)), Hdc. reflexivity. }
+    rewrite Hitems.
+    assert (RI h3 W1 (fun a => rs_met h0 a RR ++ cur r' a []) (fun g => rs_gene h0 g RR)) as HR3'.
+    { eapply ri_ext; [exact HR3| |auto]. intros q Hq. unfold cur. cbn [has_key keys_of map existsb]. symmetry. apply app_nil_r. }
+    assert (forall a, ~ In r' (rs_met h0 a RR)) as Hcm.
+    { intros a Hin. apply rs_met_in in Hin. apply in_map_iff in Hin as [q [Hq Hin]].
+      destruct (Hrecs q Hin) as [[Hw _] _]. apply (st_W _ _ _ _ HS) in Hw. unfold r' in Hq. lia. }
+    assert (forall g, ~ In r' (rs_gene h0 g RR)) as Hcg.
+    { intros a Hin. apply rs_gene_in in Hin. apply in_map_iff in Hin as [q [Hq Hin]].
+      destruct (Hrecs q Hin) as [[Hw _] _]. apply (st_W _ _ _ _ HS) in Hw. unfold r' in Hq. lia. }
+    assert (get h3 nd = Some (mkCell KDict (map fM []))) as Hgnd3.
+    { rewrite (tr_same _ _ _ _ _ HT23); [exact Hndg|apply (st_W _ _ _ _ HS1); exact HndW|].
+      intros [Heq|[Heq|[]]]; congruence. }
+    assert (attr_at h3 r' "_metabolites" = Some (Ref nd)) as Hattr3.
+    { unfold attr_at. rewrite Hg3. unfold c3. rewrite attr_set_item_other by discriminate. exact Hd1. }
+    assert (r' < List.length h3) as Hrlt3 by (apply (st_W _ _ _ _ HS3); exact Hr'W).
+    destruct (link_mets_loop (sitems h0 r) h3 W1 _ _ r' nd ok [] HR3' HndW Hndb Hrnd Hrb Hrlt3 Hgnd3 Hattr3 Hcm Hreg Hnd)
+      as [h4 [E4 [HR4 [Hgnd4 [Hattr4 HT4]]]]].
+    rewrite E4. cbn [app] in HR4, Hgnd4.
+    pose proof (ri_st _ _ _ _ HR4) as HS4.
+    (* update_genes_from_gpr *)
+    assert (FPok h3 W1 (nd :: map r_set MM)) as Hfp4.
+    { intros x [<-|Hx]; [left; exact HndW|]. left. apply in_map_iff in Hx as [q [<- Hq]].
+      apply (ri_mm _ _ _ _ HR3 q Hq). }
+    assert (~ In r' (nd :: map r_set MM)) as Hr'4.
+    { intros [Heq|Hin]; [congruence|]. apply Hrb. apply in_map_iff in Hin as [q [<- Hq]]. eapply base_mm; eauto. cbn; auto. }
+    assert (ObjCopied h0 ktr h4 W1 r r') as Hoc4 by (eapply objcopied_tr_g; eauto).
+    rewrite update_genes_eq. rewrite (gpr_names_copied h0 ktr h4 W1 r r' Hoc4 Hr_gpr Hgpr).
+    set (gs := List.length h4) in *.
+    destruct (st_alloc n h0 h4 W1 (mkCell KSet []) HS4) as [HS5 HT5]. fold gs in HS5, HT5.
+    set (h5 := h4 ++ [mkCell KSet []]) in *.
+    assert (In r' (gs :: W1)) as Hr'W5 by (right; exact Hr'W).
+    destruct (st_set_attr n h0 h5 (gs :: W1) r' "_genes" (Ref gs) HS5 Hr'W5) as [HS6 HT6].
+    set (h6 := set_attr h5 r' "_genes" (Ref gs)) in *.
+    assert (lo <= gs) as Hgslo by (unfold gs; pose proof (tr_len _ _ _ _ _ HT4); pose proof (tr_len _ _ _ _ _ HT23); pose proof (tr_len _ _ _ _ _ HT1); lia).
+    assert (~ In gs base) as Hgsb by (intro Hin; apply Hbase_lo in Hin; lia).
+    assert (r' < gs) as Hrgs by (unfold gs; pose proof (tr_len _ _ _ _ _ HT4); lia).
+    assert (nd < gs) as Hndgs by (unfold gs; apply (st_W _ _ _ _ HS4); exact HndW).
+    assert (RI h6 (gs :: W1) (fun a => rs_met h0 a RR ++ cur r' a (sitems h0 r)) (fun g => rs_gene h0 g RR)) as HR6a.
+    { eapply ri_tr; [|exact HS6|exact HT6| |].
+      - eapply ri_tr; [exact HR4|exact HS5|exact HT5| |]; intros x [].
+      - intros x [<-|[]]. exact Hr'W5.
+      - intros x [<-|[]]. exact Hrb. }
+    assert (RI h6 (gs :: W1) (fun a => rs_met h0 a RR ++ cur r' a (sitems h0 r)) (fun g => rs_gene h0 g RR ++ curg r' g [])) as HR6.
+    { eapply ri_ext; [exact HR6a|intros; reflexivity|].
+      intros q Hq. unfold curg. destruct (idof h0 (r_old q)); cbn [has_name existsb]; symmetry; apply app_nil_r. }
+    assert (get h6 gs = Some (mkCell KSet (set_items (map newG [])))) as Hggs6.
+    { unfold h6. rewrite get_set_attr_ne by lia. unfold h5, gs. apply get_alloc_new. }
+    assert (In gs (gs :: W1)) as HgsW by (left; reflexivity).
+    destruct (assoc_genes_loop (gnames h0 r) h6 (gs :: W1) _ _ r' gs [] HR6 HgsW Hgsb Hrb Hggs6 Hcg Hnames Hnn)
+      as [HR7 [Hggs7 HT7]]. cbv zeta in HR7, Hggs7, HT7. cbn [app] in HR7, Hggs7.
+    set (h7 := fold_left (assoc_gene m' dlg r' gs) (gnames h0 r) h6) in *.
+    pose proof (ri_st _ _ _ _ HR7) as HS7.
+    exists (gs :: W1), nd, gs, h7. split; [reflexivity|].
+    (* the transitions *)
+    assert (Tr ([r'; dlr] ++ (nd :: map r_set MM)) h1 W1 h4 W1) as HT14 by (apply (tr_trans _ _ _ _ _ _ _ _ HT23 HT4)).
+    assert (Tr ([] ++ [r']) h4 W1 h6 (gs :: W1)) as HT46 by (apply (tr_trans _ _ _ _ _ _ _ _ HT5 HT6)).
+    assert (Tr (([] ++ [r']) ++ (gs :: map r_set GG ++ map r_new GG)) h4 W1 h7 (gs :: W1)) as HT47
+        by (apply (tr_trans _ _ _ _ _ _ _ _ HT46 HT7)).
+    pose proof (tr_trans _ _ _ _ _ _ _ _ HT1 (tr_trans _ _ _ _ _ _ _ _ HT14 HT47)) as HTall.
+    set (FPall := [] ++ ([r'; dlr] ++ nd :: map r_set MM) ++ ([] ++ [r']) ++ gs :: map r_set GG ++ map r_new GG) in *.
+    assert (forall x, In x FPall -> x = r' \/ x = nd \/ x = gs \/ In x FPr) as HFP.
+    { intros x Hx. unfold FPall, FPr in *. cbn [app] in Hx.
+      destruct Hx as [<-|[<-|[<-|Hx]]]; auto.
+      - right. right. right. left. reflexivity.
+      - apply in_app_or in Hx as [Hx|Hx].
+        + right. right. right. right. apply in_or_app. left. exact Hx.
+        + destruct Hx as [<-|[<-|Hx]]; auto. right. right. right. right. apply in_or_app. right. exact Hx. }
+    assert (forall x, In x FPr -> In x W /\ x < lo) as HFPr.
+    { intros x [<-|Hx]; [split; auto|]. apply in_app_or in Hx as [Hx|Hx].
+      - apply in_map_iff in Hx as [q [<- Hq]]. split; [apply (ri_mm _ _ _ _ HR q Hq)|]. apply Hbase_lo. eapply base_mm; eauto. cbn; auto.
+      - apply in_app_or in Hx as [Hx|Hx]; apply in_map_iff in Hx as [q [<- Hq]].
+        + split; [apply (ri_gg _ _ _ _ HR q Hq)|]. apply Hbase_lo. eapply base_gg; eauto. cbn; auto.
+        + split; [apply (ri_gg _ _ _ _ HR q Hq)|]. apply Hbase_lo. eapply base_gg; eauto. cbn; auto. }
+    assert (FPok h W FPall) as HFPok.
+    { intros x Hx. destruct (HFP x Hx) as [->|[->|[->|Hx']]]; [right; unfold r'; lia|right; unfold r' in *; lia|right; unfold r' in *; lia|].
+      left. apply HFPr. exact Hx'. }
+    split.
+    - (* RxInv *)
+      split; [|split; [|split; [|split]]].
+      + eapply ri_ext; [exact HR7| |].
+        * intros q Hq. rewrite rs_met_app. f_equal. unfold rs_met, cur. cbn [filter q_old fst snd].
+          destruct (has_key (Ref (r_old q)) (sitems h0 r)); reflexivity.
+        * intros q Hq. rewrite rs_gene_app. f_equal. unfold rs_gene, curg. cbn [filter q_old fst snd]. fold (gnames h0 r).
+          destruct (has_name (idof h0 (r_old q)) (gnames h0 r)); reflexivity.
+      + right. exact HdlrW1.
+      + assert (get h7 dlr = get h3 dlr) as ->.
+        { pose proof (tr_trans _ _ _ _ _ _ _ _ HT4 HT47) as H37. apply (tr_same _ _ _ _ _ H37).
+          - apply (st_W _ _ _ _ HS3). exact HdlrW1.
+          - intro Hin. apply in_app_or in Hin as [[Heq|Hin]|Hin].
+            + congruence.
+            + apply Hdlrb. apply in_map_iff in Hin as [q [<- Hq]]. eapply base_mm; eauto. cbn; auto.
+            + cbn [app] in Hin. destruct Hin as [Heq|[Heq|Hin]]; [congruence|lia|].
+              apply Hdlrb. apply in_app_or in Hin as [Hin|Hin]; apply in_map_iff in Hin as [q [<- Hq]]; eapply base_gg; eauto; cbn; auto. }
+        assert (get h2 dlr = Some (mkCell KDictList (dl_items (map q_new RR)))) as Hg2.
+        { unfold h2. rewrite get_set_attr_ne by auto. rewrite (tr_same _ _ _ _ _ HT1 dlr); [exact Hgdlr|lia|intros []]. }
+        unfold h3. rewrite (get_append_eq _ _ _ _ Hg2). cbn [ckind citems]. unfold dl_items. rewrite map_app, map_app. reflexivity.
+      + intros q Hq. apply in_app_or in Hq as [Hq|[<-|[]]].
+        * pose proof (Hrecs q Hq) as Hrec. destruct Hrec as [[Hw1 [Hw2 Hw3]] [[Hl1 [Hl2 Hl3]] Hrest]].
+          pose proof (st_W _ _ _ _ HS _ Hw1). pose proof (st_W _ _ _ _ HS _ Hw2). pose proof (st_W _ _ _ _ HS _ Hw3).
+          eapply rxrec_tr; [split; [split; [exact Hw1|split; [exact Hw2|exact Hw3]]|split; [split; [exact Hl1|split; [exact Hl2|exact Hl3]]|exact Hrest]]
+                           |exact HS|exact HTall|exact HFPok| | |];
+            intro Hin; destruct (HFP _ Hin) as [Heq|[Heq|[Heq|Hin']]]; try (unfold r' in *; lia); apply HFPr in Hin'; lia.
+        * unfold RxRec, q_new, q_mets, q_genes, q_old. cbn [fst snd].
+          split; [split; [right; exact Hr'W|split; [right; exact HndW|left; reflexivity]]|].
+          split; [unfold r' in *; lia|].
+          assert (get h7 r' = get h6 r') as Eg7.
+          { apply (tr_same _ _ _ _ _ HT7); [unfold h6; rewrite set_attr_length'; unfold h5; rewrite app_length; cbn; lia|].
+            intros [Heq|Hin]; [lia|]. apply Hrb.
+            apply in_app_or in Hin as [Hin|Hin]; apply in_map_iff in Hin as [q [<- Hq]]; eapply base_gg; eauto; cbn; auto. }
+          assert (get h5 r' = get h4 r') as Eg5 by (unfold h5; apply get_alloc_old; lia).
+          assert (FPok h6 (gs :: W1) (gs :: map r_set GG ++ map r_new GG)) as Hfp7.
+          { intros x [<-|Hx]; [left; left; reflexivity|]. left. right.
+            apply in_app_or in Hx as [Hx|Hx]; apply in_map_iff in Hx as [q [<- Hq]]; apply (ri_gg _ _ _ _ HR3 q Hq). }
+          assert (~ In r' (gs :: map r_set GG ++ map r_new GG)) as Hr'7.
+          { intros [Heq|Hin]; [lia|]. apply Hrb.
+            apply in_app_or in Hin as [Hin|Hin]; apply in_map_iff in Hin as [q [<- Hq]]; eapply base_gg; eauto; cbn; auto. }
+          split; [|split; [|split; [|split; [|split]]]].
+          -- eapply objcopied_tr_g; [|exact HS6|exact HT7|exact Hfp7|exact Hr'W5|exact Hr'7].
+             eapply objcopied_set_attr; [|exact HS5|exact Hr'W5|exact Hr_genes|].
+             ++ eapply objcopied_tr_g; [exact Hoc4|exact HS4|exact HT5|intros x []|exact Hr'W|intros []].
+             ++ intros oc0 Hoc0. rewrite Hget in Hoc0. inv Hoc0. split; [exact K3|apply (ok_nodup _ _ _ Hok)].
+          -- rewrite (attr_at_agree _ _ _ _ Eg7). unfold h6. rewrite attr_at_set_attr_ne_name by discriminate.
+             rewrite (attr_at_agree _ _ _ _ Eg5).
+             assert (get h4 r' = get h3 r') as Eg4 by (apply (tr_same _ _ _ _ _ HT4); auto).
+             rewrite (attr_at_agree _ _ _ _ Eg4). unfold attr_at. rewrite Hg3. unfold c3. apply attr_set_item_same.
+          -- rewrite (attr_at_agree _ _ _ _ Eg7). unfold h6. rewrite attr_at_set_attr_ne_name by discriminate.
+             rewrite (attr_at_agree _ _ _ _ Eg5). exact Hattr4.
+          -- rewrite (tr_same _ _ _ _ _ HT47); [exact Hgnd4|lia|].
+             intro Hin. cbn [app] in Hin. destruct Hin as [Heq|[Heq|Hin]]; [congruence|lia|].
+             apply Hndb. apply in_app_or in Hin as [Hin|Hin]; apply in_map_iff in Hin as [q [<- Hq]]; eapply base_gg; eauto; cbn; auto.
+          -- rewrite (attr_at_agree _ _ _ _ Eg7). unfold h6. apply attr_at_set_attr_eq. unfold h5. rewrite app_length. cbn. lia.
+          -- exact Hggs7.
+      + pose proof (tr_len _ _ _ _ _ HTall). lia.
+    - (* the footprint on the cells that existed *)
+      destruct HTall as [L A N S]. split; auto. intros x Hx Hnot. apply S; auto. intro Hin.
+      destruct (HFP x Hin) as [->|[->|[->|Hin']]]; try (unfold r' in *; lia). contradiction.
+  Qed.
+
+  Lemma reaction_loop_desc : forall (L : list addr) h W RR ok,
+      RxInv h W RR -> (forall r, In r L -> exists oc, RxOld r oc) ->
+      exists W2 RR2 h2,
+        fold_left (copy_reaction T m' dlr dlm dlg) (map Ref L) (h, ok) = (h2, ok) /\
+        RxInv h2 W2 (RR ++ RR2) /\ map q_old RR2 = L /\ Tr FPr h W h2 W2.
+  Proof.
+    induction L as [|r L IH]; intros h W RR ok HI HL.
+    - exists W, [], h. rewrite app_nil_r. split; [reflexivity|]. split; [exact HI|]. split; [reflexivity|].
+      eapply tr_weaken; [apply tr_refl|]. intros x [].
+    - destruct (HL r (or_introl eq_refl)) as [oc Hoc].
+      destruct (copy_reaction_desc h W RR r oc ok HI Hoc) as [W1 [nd [gs [h1 [E1 [HI1 HT1]]]]]].
+      destruct (IH h1 W1 _ ok HI1 (fun x Hx => HL x (or_intror Hx))) as [W2 [RR2 [h2 [E2 [HI2 [Hold HT2]]]]]].
+      exists W2, ((r, List.length h, nd, gs) :: RR2), h2. cbn [map fold_left]. rewrite E1.
+      split; [exact E2|]. rewrite <- app_assoc in HI2. split; [exact HI2|]. split; [cbn; f_equal; exact Hold|].
+      pose proof (tr_trans _ _ _ _ _ _ _ _ HT1 HT2) as H. eapply tr_weaken; [exact H|].
+      intros x Hx. apply in_app_or in Hx as [Hx|Hx]; exact Hx.
   Qed.
 End Rxn.
